@@ -237,6 +237,7 @@ theorem C15_closed_is_final (s : St) (p : Nat) (op : Op) (pl : Pool) (hp : s.poo
   cases op with
   | get q => exact getk s q pl hp hc
   | lose c => exact ⟨pl, hp, hc⟩
+  | vanish c => exact ⟨pl, hp, hc⟩
   | setDial q ok =>
     have : setDial s q ok = updPool s q (fun pl => { pl with dialOk := ok }) := by unfold setDial updPool; rfl
     show ∃ pl', (setDial s q ok).pools[p]? = some pl' ∧ pl'.closed = true
@@ -276,7 +277,8 @@ theorem C15_closed_is_final (s : St) (p : Nat) (op : Op) (pl : Pool) (hp : s.poo
           exact relk _ q { pl with isSlave := b } (setPool_self_get _ hp) hc
         · exact relk _ q pl (by show (s.pools.set q _)[p]? = _; rw [List.getElem?_set_ne hqp]; exact hp) hc
   | req r =>
-    show ∃ pl', (request s r).1.pools[p]? = some pl' ∧ pl'.closed = true
+    show ∃ pl', (serve s r).1.pools[p]? = some pl' ∧ pl'.closed = true
+    rw [serve_pools]
     obtain ⟨pl1, hq1, hc1⟩ := gck s r pl hp hc
     unfold request
     split
@@ -288,6 +290,64 @@ theorem C15_closed_is_final (s : St) (p : Nat) (op : Op) (pl : Pool) (hp : s.poo
       · next s2 c b heq2 => rw [heq2] at hq2; exact ⟨pl2, hq2, hc2⟩
       · next s2 b heq2 => rw [heq2] at hq2; exact ⟨pl2, hq2, hc2⟩
     · next s1 heq => rw [heq] at hq1; exact ⟨pl1, hq1, hc1⟩
+
+/-- the loss is discovered by the write itself (the peer went away and no EOF was delivered yet): the request that
+    was queued on that connection is answered with the connection-closed error, the connection is closed - so the
+    pool will not hand it out again - and nothing else changes in the pools -/
+theorem C15_write_failure_closes (s : St) (isRead : Bool) (c : Nat) (h : (serve s isRead).2 = .lost c) :
+    isOpen (serve s isRead).1.conns c = false ∧ (request s isRead).2 = .fwd c ∧
+    (serve s isRead).1.pools = (request s isRead).1.pools := by
+  refine ⟨?_, ?_, serve_pools s isRead⟩
+  · cases hr : request s isRead with
+    | mk s1 o =>
+      cases o with
+      | err => simp [serve, hr] at h
+      | fwd c' =>
+        cases hx : s1.conns[c']? with
+        | none => simp [serve, hr, deliver, hx] at h
+        | some x =>
+          by_cases hg : x.gone = true
+          · simp [serve, hr, deliver, hx, hg] at h ⊢
+            subst h
+            exact isOpen_modify_self _ _
+          · simp [serve, hr, deliver, hx, hg] at h
+  · cases hr : request s isRead with
+    | mk s1 o =>
+      cases o with
+      | err => simp [serve, hr] at h
+      | fwd c' =>
+        cases hd : deliver s1 c' with
+        | mk s2 ok =>
+          cases ok <;> simp [serve, hr, hd] at h ⊢
+          exact h
+
+/-- every request has one of three fates, each of which answers the client or puts the request on a live socket:
+    written to an open connection, failed by the write (error reply, connection closed), refused (error reply) -/
+theorem C15_serve_total (s : St) (isRead : Bool) :
+    (∃ c, (serve s isRead).2 = .fwd c ∧ isOpen (serve s isRead).1.conns c = true) ∨
+    (∃ c, (serve s isRead).2 = .lost c ∧ isOpen (serve s isRead).1.conns c = false) ∨
+    (serve s isRead).2 = .err := by
+  cases hs : (serve s isRead).2 with
+  | err => exact Or.inr (Or.inr rfl)
+  | lost c => exact Or.inr (Or.inl ⟨c, rfl, (C15_write_failure_closes s isRead c hs).1⟩)
+  | fwd c =>
+    refine Or.inl ⟨c, rfl, ?_⟩
+    cases hr : request s isRead with
+    | mk s1 o =>
+      cases o with
+      | err => simp [serve, hr] at hs
+      | fwd c' =>
+        have hopen : isOpen s1.conns c' = true := by
+          rcases C15_request_served_or_refused s isRead with ⟨c2, h1, h2⟩ | ⟨h1, _⟩
+          · rw [hr] at h1 h2; simp only at h1 h2; injection h1 with h1; subst h1; exact h2
+          · rw [hr] at h1; cases h1
+        cases hx : s1.conns[c']? with
+        | none => simp [isOpen, hx] at hopen
+        | some x =>
+          by_cases hg : x.gone = true
+          · simp [serve, hr, deliver, hx, hg] at hs
+          · simp [serve, hr, deliver, hx, hg] at hs ⊢
+            subst hs; exact hopen
 
 /-! ### C10 -/
 
@@ -419,6 +479,12 @@ example :
 example :
     let s := run (init 2 true) [.req true, .setSlave 1 false, .req true]
     s.conns.map (fun x => (x.opened, x.slave)) = [(false, true), (true, false)] := by decide
+
+/-- the peer of the only connection vanishes: the next request is failed by its write, the connection is closed,
+    and the request after that is served over a new connection -/
+example :
+    let s := run (init 1 false) [.req false, .vanish 0]
+    (serve s false).2 = .lost 0 ∧ (serve (serve s false).1 false).2 = .fwd 1 := by decide
 
 /-- a closed pool refuses and dials nothing -/
 example :
